@@ -107,6 +107,24 @@ inline void chk_node(const NodeT &nh, bool had, bool inserted, int value, const 
   }
 }
 
+template <class C>
+inline MCmp mcmp_like(const C &c) {
+  if constexpr (std::is_same<C, ModCmp>::value) return MCmp(c.m);
+  else return make_mcmp();
+}
+
+/// After an injected fault the sets must be consistent (checked by observe() and the ledgers); the models are
+/// re-read from them (basic guarantee: contents unspecified but valid) so that exploration continues from there.
+inline void fault_epilogue(World &w) {
+  for (int x = 0; x < w.K; ++x) {
+    S &s = w.slot[x].s();
+    w.m[x].emplace(mcmp_like(s.key_comp()));
+    long n = 0;
+    for (auto it = s.begin(); it != s.end() && n < 64; ++it, ++n) w.m[x]->insert(E::val(*it));
+    w.big[x] = true;  // C05 is not quantified over faults
+  }
+}
+
 inline void apply(World &w, const Op &op) {
   const char *nm = kind_name(op.k);
   const int i = op.i;
@@ -119,6 +137,8 @@ inline void apply(World &w, const Op &op) {
   auto upd_big = [&](int x) {
     if ((int)w.m[x]->size() > N) w.big[x] = true;
   };
+#define FCHK if (faulted()) goto fault_done
+  g_cur_fault = op.f;
   auto unexpected = [&] {
     if (W().exc) vf::fail(PT(), "%s: unexpected exception (kind %d)", nm, W().exc_kind);
   };
@@ -155,7 +175,7 @@ inline void apply(World &w, const Op &op) {
         is_end = r.first == SS.end();
         if (!is_end) got = E::val(*r.first);
       });
-      unexpected();
+      FCHK; unexpected();
       auto mr = m.insert(key);
       if (ins != mr.second) vf::fail(PT(), "%s(%d): inserted=%d, std::set says %d", nm, key, (int)ins, (int)mr.second);
       chk_it(is_end, got, *mr.first, PTI());
@@ -175,7 +195,7 @@ inline void apply(World &w, const Op &op) {
         is_end = r == SS.end();
         if (!is_end) got = E::val(*r);
       });
-      unexpected();
+      FCHK; unexpected();
       auto mr = m.insert(key);
       chk_it(is_end, got, *mr.first, kFlat ? "C03,C12" : "C11,C04");
       upd_big(i);
@@ -195,7 +215,7 @@ inline void apply(World &w, const Op &op) {
           else SS.insert({a, b, c});
         });
       }
-      unexpected();
+      FCHK; unexpected();
       for (int k : keys) m.insert(k);
       upd_big(i);
       chk_noalloc(!big0 && !w.big[i], nm);
@@ -205,7 +225,7 @@ inline void apply(World &w, const Op &op) {
       T t = mk(key);
       long got = -1;
       win([&] { got = (long)SS.erase(static_cast<const T &>(t)); });
-      unexpected();
+      FCHK; unexpected();
       long want = (long)m.erase(key);
       if (got != want) vf::fail(PT(), "erase(%d) returned %ld, std::set returns %ld", key, got, want);
       chk_noalloc(!big0, nm);
@@ -216,7 +236,7 @@ inline void apply(World &w, const Op &op) {
       const int key = E::val(*it);
       typename S::const_iterator r = SS.end();
       win([&] { r = SS.erase(it); });
-      unexpected();
+      FCHK; unexpected();
       m.erase(key);
       chk_erase_it(r, p);
       chk_noalloc(!big0, nm);
@@ -228,14 +248,14 @@ inline void apply(World &w, const Op &op) {
       for (auto it = ia; it != ib; ++it) gone.push_back(E::val(*it));
       typename S::const_iterator r = SS.end();
       win([&] { r = SS.erase(ia, ib); });
-      unexpected();
+      FCHK; unexpected();
       for (int k : gone) m.erase(k);
       chk_erase_it(r, a);
       chk_noalloc(!big0, nm);
     } break;
     case CLEAR:
       win([&] { SS.clear(); });
-      unexpected();
+      FCHK; unexpected();
       m.clear();
       chk_noalloc(!big0, nm);
       break;
@@ -258,7 +278,7 @@ inline void apply(World &w, const Op &op) {
           else ++it;
         }
       });
-      unexpected();
+      FCHK; unexpected();
       if (runaway) vf::fail(PTI(), "erase-while-iterating loop did not terminate within size+2 steps (stale iterator)");
       std::vector<int> vis(visited, visited + nv);
       std::sort(vis.begin(), vis.end());
@@ -276,7 +296,7 @@ inline void apply(World &w, const Op &op) {
       const int mask = op.a;
       long got = -1, want = 0;
       win([&] { got = (long)erase_if(SS, [&](const T &e) { int v = E::val(e); return v >= 0 && v < KEYS && (mask >> v & 1); }); });
-      unexpected();
+      FCHK; unexpected();
       for (int k = 0; k < KEYS; ++k)
         if (mask >> k & 1) {
           auto it = m.find(k);
@@ -306,7 +326,7 @@ inline void apply(World &w, const Op &op) {
         hpos = op.b;
         T t = mk(key);
         win([&] { nh = SS.extract(static_cast<const T &>(t)); });
-        unexpected();
+        FCHK; unexpected();
         auto mit = m.find(key);
         had = mit != m.end();
         if (had) {
@@ -323,7 +343,7 @@ inline void apply(World &w, const Op &op) {
         value = E::val(*it);
         had = true;
         win([&] { nh = SS.extract(it); });
-        unexpected();
+        FCHK; unexpected();
         m.erase(value);
         if (nh.empty()) vf::fail(PT(), "extract(position) returned an empty node");
         else if (E::val(nh.value()) != value) vf::fail(PT(), "extract(position) gave %d, expected %d", E::val(nh.value()), value);
@@ -357,7 +377,7 @@ inline void apply(World &w, const Op &op) {
           r_node_empty = r.node.empty();
           if (!r_node_empty) r_node_val = E::val(r.node.value());
         });
-        unexpected();
+        FCHK; unexpected();
         if (!had) {
           if (r_ins || !r_end || !r_node_empty) vf::fail(PT(), "insert(empty node) must return {end(), false, empty node}");
         } else {
@@ -381,7 +401,7 @@ inline void apply(World &w, const Op &op) {
           r_end = r == dst.end();
           if (!r_end) r_val = E::val(*r);
         });
-        unexpected();
+        FCHK; unexpected();
         if (had) {
           auto mr = mj.insert(value);
           inserted = mr.second;
@@ -400,7 +420,7 @@ inline void apply(World &w, const Op &op) {
       const bool bigj0 = w.big[j];
       const std::vector<int> order = seq_of(o);
       win([&] { SS.merge(o); });
-      unexpected();
+      FCHK; unexpected();
       model_merge(m, mo, order);
       if (bigj0) w.big[i] = true;
       upd_big(i);
@@ -416,7 +436,7 @@ inline void apply(World &w, const Op &op) {
         const bool tbig = (int)tm.size() > N;
         const std::vector<int> order = seq_of(*t);
         win([&] { SS.merge(*t); });
-        unexpected();
+        FCHK; unexpected();
         model_merge(m, tm, order);
         if (sorted_vals(*t) != sorted_model(tm)) vf::fail(PT(), "merge: the source keeps the wrong elements");
         if (tbig) w.big[i] = true;
@@ -436,7 +456,7 @@ inline void apply(World &w, const Op &op) {
         std::vector<int> order;
         for (auto it = t.begin(); it != t.end(); ++it) order.push_back(E::val(*it));
         win([&] { SS.merge(t); });
-        unexpected();
+        FCHK; unexpected();
         model_merge(m, tm, order);
         if (sorted_vals(t) != sorted_model(tm)) vf::fail(PT(), "merge(other type): the source keeps the wrong elements");
         if (tbig) w.big[i] = true;
@@ -449,7 +469,7 @@ inline void apply(World &w, const Op &op) {
       const int j = op.j;
       S &o = w.slot[j].s();
       win([&] { if (op.k == SWAP_MEMBER) SS.swap(o); else { using std::swap; swap(SS, o); } });
-      unexpected();
+      FCHK; unexpected();
       std::swap(*w.m[i], *w.m[j]);
       const bool any = w.big[i] || w.big[j];
       chk_noalloc(!any, nm);
@@ -461,7 +481,7 @@ inline void apply(World &w, const Op &op) {
       S &o = w.slot[j].s();
       const bool mv = op.k == MOVE_ASSIGN;
       win([&] { if (mv) SS = std::move(o); else SS = static_cast<const S &>(o); });
-      unexpected();
+      FCHK; unexpected();
       *w.m[i] = *w.m[j];
       if (mv) {
         w.m[j]->clear();
@@ -482,7 +502,7 @@ inline void apply(World &w, const Op &op) {
       const bool mv = op.k == MOVE_CONSTRUCT;
       replace(i, [&](void *where) { if (mv) ::new (where) S(std::move(o)); else ::new (where) S(static_cast<const S &>(o)); });
       sp = &SL.s();
-      unexpected();
+      FCHK; unexpected();
       w.m[i].emplace(*w.m[j]);
       if (mv) {
         w.m[j]->clear();
@@ -506,14 +526,14 @@ inline void apply(World &w, const Op &op) {
       const bool tbig = (int)tm.size() > N;
       if (op.k == COPY_ASSIGN_T) {
         win([&] { SS = static_cast<const S &>(*t); });
-        unexpected();
+        FCHK; unexpected();
         m = tm;
         if (sorted_vals(*t) != sorted_model(tm)) vf::fail(PT(), "copy assignment modified its source");
         chk_noalloc(!big0 && !tbig, nm);
         w.big[i] = big0 || tbig;
       } else if (op.k == MOVE_ASSIGN_T) {
         win([&] { SS = std::move(*t); });
-        unexpected();
+        FCHK; unexpected();
         m = tm;
         if (!t->empty()) vf::fail(PT(), "moved-from set is not empty");
         chk_noalloc(!big0 && !tbig, nm);
@@ -523,7 +543,7 @@ inline void apply(World &w, const Op &op) {
         if (t->size() != 1 || !t->contains(mk(0))) vf::fail(PT(), "moved-from set is not usable");
       } else if (op.k == SWAP_T) {
         win([&] { SS.swap(*t); });
-        unexpected();
+        FCHK; unexpected();
         if (sorted_vals(*t) != sorted_model(m)) vf::fail(PT(), "swap: the other operand did not receive our elements");
         m = tm;
         chk_noalloc(!big0 && !tbig, nm);
@@ -532,7 +552,7 @@ inline void apply(World &w, const Op &op) {
         const bool mv = op.k == MOVE_CTOR_T;
         replace(i, [&](void *where) { if (mv) ::new (where) S(std::move(*t)); else ::new (where) S(static_cast<const S &>(*t)); });
         sp = &SL.s();
-        unexpected();
+        FCHK; unexpected();
         w.m[i].emplace(tm);
         if (mv && !t->empty()) vf::fail(PT(), "moved-from set is not empty");
         chk_noalloc(!tbig, nm);
@@ -551,7 +571,7 @@ inline void apply(World &w, const Op &op) {
           else if (keys.size() == 2) SS = {a, b};
           else SS = {a, b, c};
         });
-        unexpected();
+        FCHK; unexpected();
         m.clear();
         for (int k : keys) m.insert(k);
         upd_big(i);
@@ -568,7 +588,7 @@ inline void apply(World &w, const Op &op) {
           });
         }
         sp = &SL.s();
-        unexpected();
+        FCHK; unexpected();
         w.m[i].emplace(make_mcmp());
         for (int k : keys) w.m[i]->insert(k);
         w.big[i] = (int)w.m[i]->size() > N;
@@ -588,11 +608,11 @@ inline void apply(World &w, const Op &op) {
         if (op.k == FROM_VECTOR) {
           replace(i, [&](void *where) { ::new (where) S(std::move(uv), make_cmp()); });
           sp = &SL.s();
-          unexpected();
+          FCHK; unexpected();
           w.m[i].emplace(make_mcmp());
         } else {
           win([&] { SS = std::move(uv); });
-          unexpected();
+          FCHK; unexpected();
           w.m[i]->clear();
         }
         for (int k : keys) w.m[i]->insert(k);
@@ -602,25 +622,29 @@ inline void apply(World &w, const Op &op) {
           UVec uv = SS.steal_vector();
           for (const T &e : uv) got.push_back(E::val(e));
         });
-        unexpected();
+        FCHK; unexpected();
         if (got != before) vf::fail(PT(), "steal_vector did not return the elements in order");
         if (!SS.empty()) vf::fail(PT(), "set not empty after steal_vector");
         m.clear();
       } else if (op.k == RESERVE) {
         if (!(CFG_VEC == 2 && op.a > 8)) {
           win([&] { SS.reserve((typename S::size_type)op.a); });
-          unexpected();
+          FCHK; unexpected();
           if ((long)SS.capacity() < op.a) vf::fail(PT(), "reserve(%d): capacity %ld", op.a, (long)SS.capacity());
         }
       } else {
         win([&] { SS.shrink_to_fit(); });
-        unexpected();
+        FCHK; unexpected();
       }
 #endif
     } break;
     default:
       break;
   }
+fault_done:
+  if (faulted()) fault_epilogue(w);
+  g_cur_fault = 0;
+#undef FCHK
 #undef SS
 }
 
